@@ -59,6 +59,7 @@ func (dp *DataProcessor) Process() {
 		dp.stream.dataChanMux.RLock()
 		currentDataChan := dp.stream.dataChan
 		dp.stream.dataChanMux.RUnlock()
+		verifhook.At("proc.ref", dp.stream, int64(cap(currentDataChan)), int64(len(currentDataChan)), 0)
 
 		// Check if dataChan is nil (stream has been stopped)
 		if currentDataChan == nil {
